@@ -258,6 +258,29 @@ func lookupHostFn(cfg *config.Config, notFound gkm.Counter) func(string) *route.
 	}
 }
 
+// lookupAddrFn returns the target for a connection to a local address
+// of a dynamic tcp listener: the route for ip:port or else the route
+// for :port of the same routing table. Two lookups which each load the
+// active table could combine the miss of the table which was just
+// replaced with the hit of its successor.
+func lookupAddrFn(cfg *config.Config, notFound gkm.Counter) func(string) *route.Target {
+	pick := route.Picker[cfg.Proxy.Strategy]
+	return func(addr string) *route.Target {
+		tbl := route.GetTable()
+		t := tbl.LookupHost(addr, pick)
+		if t == nil {
+			if _, port, err := net.SplitHostPort(addr); err == nil {
+				t = tbl.LookupHost(":"+port, pick)
+			}
+		}
+		if t == nil {
+			notFound.Add(1)
+			log.Print("[WARN] No route for ", addr)
+		}
+		return t
+	}
+}
+
 // Returns a matcher function compatible with tcpproxy Matcher from github.com/inetaf/tcpproxy
 func lookupHostMatcher(cfg *config.Config) func(context.Context, string) bool {
 	// the matcher only wants to know the protocol of the route. It must not
@@ -476,6 +499,7 @@ func startServers(cfg *config.Config, stats metrics.Provider) {
 							h := &tcp.DynamicProxy{
 								DialTimeout: cfg.Proxy.DialTimeout,
 								Lookup:      lookupHostFn(cfg, notFound),
+								LookupAddr:  lookupAddrFn(cfg, notFound),
 								Conn:        tcpConn,
 								ConnFail:    tcpConnFail,
 								Noroute:     tcpNoRoute,
